@@ -526,3 +526,9 @@ func (w *World) constArray(elemSort, zero string) string {
 	w.declare(n, fmt.Sprintf("(declare-const %s (Array Int %s))\n(assert (forall ((i Int)) (! (= (select %s i) %s) :pattern ((select %s i)))))", n, elemSort, n, zero, n))
 	return n
 }
+
+func (w *World) declareStrOfArr() {
+	w.declare("strofarr", "(declare-fun strofarr ((Array Int Int) Int Int) Str)\n"+
+		"(assert (forall ((a (Array Int Int)) (o Int) (n Int)) (! (=> (>= n 0) (= (slen (strofarr a o n)) n)) :pattern ((strofarr a o n)))))\n"+
+		"(assert (forall ((a (Array Int Int)) (o Int) (n Int) (i Int)) (! (=> (and (<= 0 i) (< i n)) (= (sat (strofarr a o n) i) (select a (+ o i)))) :pattern ((sat (strofarr a o n) i)))))")
+}
